@@ -100,7 +100,7 @@ type ClosureV struct {
 
 type ChanV struct {
 	buf    []Value
-	cap    int
+	capT   *Term
 	closed bool
 }
 
